@@ -118,12 +118,21 @@ impl<'tcx> Cx<'tcx> {
             ExpnKind::AstPass(_) => "astpass".to_string(),
             ExpnKind::Desugaring(k) => format!("desugar:{:?}", k),
         };
+        // whole macro backtrace (innermost first), e.g. "assert>debug_assert"
+        let chain: Vec<String> = sp
+            .macro_backtrace()
+            .filter_map(|d| match d.kind {
+                ExpnKind::Macro(_, name) => Some(format!("{}", name)),
+                _ => None,
+            })
+            .collect();
         obj(vec![
             ("file", js(&file)),
             ("line", jn(lo.line)),
             ("col", jn(lo.col.0 + 1)),
             ("eline", jn(hi.line)),
             ("exp", js(&exp)),
+            ("expc", js(&chain.join(">"))),
         ])
     }
 
